@@ -58,6 +58,7 @@
 #include "QXmppVersionManager.h"
 #include "XmppSocket.h"
 
+#include <cxxabi.h>
 #include <QCoreApplication>
 #include <QElapsedTimer>
 #include <QTcpServer>
@@ -72,7 +73,8 @@ using namespace QXmpp::Private;
 enum {
     C_MAX_CALL_MS = 0, C_EXTENSIONS = 1,
     C_ITEMS = 8, C_FED_DIRECT, C_FED_SOCKET, C_SENT, C_SENT_BYTES, C_SENT_IQ_ERRORS, C_SENT_IQ_RESULTS, C_SENT_CHECKED, C_DROPPED, C_ERRORS_SIGNALLED, C_MSG_SIGNALS, C_PRES_SIGNALS, C_IQ_SIGNALS,
-    C_CONNECT_FAILED, C_PASS, C_FAIL, C_MUT_NOT_APPLICABLE, C_INPUT_NOT_WF, C_LONGLIVED_FED, C_WRAPPED,
+    C_CONNECT_FAILED, C_PASS, C_FAIL, C_MUT_NOT_APPLICABLE, C_INPUT_NOT_WF, C_LONGLIVED_FED, C_WRAPPED, C_EXCEPTIONS, C_NEGO_FED, C_NEGO_STATE_NOT_REACHED, C_NEGO_FINISHED,
+    C_NEGO_STATE0 = 100,   // + state index: feeds delivered in that state
     C_KIND0 = 40,
 };
 
@@ -84,6 +86,8 @@ struct Cfg {
     bool mutations = true;
     std::string docs;
     int cpuBudget = 20;
+    bool nego = true;
+    std::string state;
 };
 static Cfg g_cfg;
 static std::vector<Doc> g_docs;
@@ -187,6 +191,45 @@ public:
         pump(3);
         return out->isConnected();
     }
+    // connect the real socket and exchange stream headers only (no session): the client is then negotiating
+    bool connectOnly(QTcpServer &server)
+    {
+        auto *out = d->stream;
+        out->d->socket.connectToHost(ServerAddress { ServerAddress::Tcp, QStringLiteral("127.0.0.1"), server.serverPort() });
+        QElapsedTimer t; t.start();
+        while ((!out->d->socket.isConnected() || !server.hasPendingConnections()) && t.elapsed() < 5000) QCoreApplication::processEvents(QEventLoop::AllEvents, 20);
+        if (!out->d->socket.isConnected() || !server.hasPendingConnections()) return false;
+        peer.reset(server.nextPendingConnection());
+        QObject::connect(peer.get(), &QTcpSocket::readyRead, peer.get(), [this] { serverReceived += peer->readAll().size(); });
+        serverSend("<?xml version='1.0'?><stream:stream xmlns='jabber:client' xmlns:stream='http://etherx.jabber.org/streams' id='s1' from='montague.example' version='1.0' xml:lang='en'>");
+        return true;
+    }
+    void serverSend(const QByteArray &xml)
+    {
+        peer->write(xml);
+        peer->flush();
+        QElapsedTimer t; t.start();
+        for (int idle = 0; idle < 3 && t.elapsed() < 2000;) {
+            pump(2);
+            auto *sock = d->stream->d->socket.socket();
+            if (peer->bytesToWrite() == 0 && (!sock || sock->bytesAvailable() == 0)) idle++; else idle = 0;
+        }
+    }
+    int listenerIndex() { return int(d->stream->d->listener.index()); }
+    void setAuthenticated(bool a) { d->stream->d->isAuthenticated = a; }
+    QString lastSent(const QString &prefix)
+    {
+        for (int i = sent.size() - 1; i >= 0; i--) if (sent[i].startsWith(prefix)) return sent[i];
+        return {};
+    }
+    QString lastSentIqId()
+    {
+        QString iq = lastSent(QStringLiteral("<iq"));
+        int a = iq.indexOf(QStringLiteral("id=\""));
+        if (a < 0) return QStringLiteral("none");
+        int b = iq.indexOf(u'"', a + 4);
+        return iq.mid(a + 4, b - a - 4);
+    }
     void pump(int rounds)
     {
         for (int i = 0; i < rounds; i++) {
@@ -221,6 +264,36 @@ public:
     std::unique_ptr<QXmppAtmTrustMemoryStorage> trustStorage;
 };
 
+// A C++ exception that escapes the client's packet handling would unwind through Qt's event dispatch / the socket's readyRead
+// handler and terminate the application: it is caught here and reported as C02:client-exception:<state>:<type>.
+static std::string currentExceptionType()
+{
+    int status = 0;
+    const std::type_info *ti = abi::__cxa_current_exception_type();
+    if (!ti) return "unknown";
+    char *dn = abi::__cxa_demangle(ti->name(), nullptr, nullptr, &status);
+    std::string n = (status == 0 && dn) ? dn : ti->name();
+    free(dn);
+    for (auto &ch : n) if (ch == ' ' || ch == '\t') ch = '_';
+    return n;
+}
+template<typename F>
+static bool guarded(const std::string &state, const std::string &docId, const std::string &mutDesc, const QByteArray &in, Status *st, F &&f)
+{
+    try {
+        f();
+        return true;
+    } catch (...) {
+        std::string what = currentExceptionType();
+        printf("O FAIL C02:client-exception:%s:%s\tstate=%s doc=%s mut=%s in=%s (a C++ exception left the client's element handling; outside a harness it reaches the event loop and terminates the process)\n",
+               state.c_str(), what.c_str(), state.c_str(), docId.c_str(), mutDesc.empty() ? "none" : mutDesc.c_str(), escLine(in, 1500).c_str());
+        fflush(stdout);
+        st->counters[C_EXCEPTIONS]++;
+        st->counters[C_FAIL]++;
+        return false;
+    }
+}
+
 static bool sentIsWellFormed(const QString &text)
 {
     if (text.startsWith(u"<?xml") || text.startsWith(u"<stream:stream") || text == u"</stream:stream>" || text.trimmed().isEmpty()) return true;
@@ -229,7 +302,176 @@ static bool sentIsWellFormed(const QString &text)
     return doc.setContent(wrapped, true);
 }
 
-struct Work { int doc; int mut; int kind; int mode; int wrap = 0; };   // mode 0 direct, 1 socket, 2 long-lived (doc = first index, mut = count)
+// ------------------------------------------------------------------------------------------------ negotiation states
+// A real client is brought into each listener state of QXmppOutgoingClient by the server side of the loopback connection sending the
+// stream features (and follow-ups) that lead there; the state is verified through the listener variant index. Then ONE element is
+// delivered (socket text or handlePacketReceived) to a fresh client in that state.
+enum { L_CLIENT = 0, L_STARTTLS = 1, L_NONSASL = 2, L_SASL = 3, L_SASL2 = 4, L_SM = 5, L_BIND = 6 };
+struct NegState { std::string name; int listener; };
+static const std::vector<NegState> &negStates()
+{
+    static const std::vector<NegState> s = {
+        { "starttls", L_STARTTLS },
+        { "sasl:PLAIN", L_SASL }, { "sasl:SCRAM-SHA-1", L_SASL }, { "sasl:SCRAM-SHA-256", L_SASL }, { "sasl:SCRAM-SHA-512", L_SASL }, { "sasl:DIGEST-MD5", L_SASL }, { "sasl:ANONYMOUS", L_SASL },
+        { "sasl:SCRAM-SHA-1:after-challenge", L_SASL }, { "sasl:DIGEST-MD5:after-challenge", L_SASL },
+        { "sasl2:PLAIN", L_SASL2 }, { "sasl2:SCRAM-SHA-1", L_SASL2 }, { "sasl2:SCRAM-SHA-256", L_SASL2 }, { "sasl2:SCRAM-SHA-1:after-challenge", L_SASL2 },
+        { "bind", L_BIND }, { "sm-enable", L_SM }, { "sm-resume", L_SM },
+        { "legacy-auth:options", L_NONSASL }, { "legacy-auth:login", L_NONSASL },
+    };
+    return s;
+}
+static QByteArray features(const QByteArray &inner)
+{
+    return "<stream:features>" + inner + "</stream:features>";
+}
+static QByteArray scramServerFirst(const QString &sentAuthOrAuthenticate)
+{
+    // client-first is the base64 text of <auth/> (SASL) or of <initial-response/> (SASL2): "n,,n=user,r=<nonce>"
+    QString t = sentAuthOrAuthenticate;
+    int ir = t.indexOf(QStringLiteral("<initial-response>"));
+    QString b64;
+    if (ir >= 0) b64 = t.mid(ir + 18, t.indexOf(u'<', ir + 18) - ir - 18);
+    else { int a = t.indexOf(u'>'); b64 = t.mid(a + 1, t.indexOf(u'<', a + 1) - a - 1); }
+    QByteArray first = QByteArray::fromBase64(b64.toLatin1());
+    int r = first.indexOf("r=");
+    QByteArray nonce = r < 0 ? QByteArray("x") : first.mid(r + 2);
+    return ("r=" + nonce + "3rfcNHYJY1ZVvWVs7j,s=QSXCR+Q6sek8bf92,i=4096").toBase64();
+}
+// returns false when the state could not be reached (counted, not a failure of the library)
+static bool enterState(TestClient &c, QTcpServer &server, const NegState &st)
+{
+    auto &cfg = c.configuration();
+    const std::string &n = st.name;
+    cfg.setStreamSecurityMode(n == "starttls" ? QXmppConfiguration::TLSEnabled : QXmppConfiguration::TLSDisabled);
+    if (n.rfind("sasl:", 0) == 0) cfg.setUseSasl2Authentication(false);
+    if (n.rfind("legacy-auth", 0) == 0) { cfg.setUseSASLAuthentication(false); cfg.setUseSasl2Authentication(false); cfg.setUseNonSASLAuthentication(true); }
+    if (!c.connectOnly(server)) return false;
+    auto mech = [&]() { auto a = n.find(':'); auto b = n.find(':', a + 1); return QByteArray::fromStdString(n.substr(a + 1, b == std::string::npos ? b : b - a - 1)); };
+    if (n == "starttls") c.serverSend(features("<starttls xmlns='urn:ietf:params:xml:ns:xmpp-tls'><required/></starttls>"));
+    else if (n.rfind("sasl:", 0) == 0) {
+        c.serverSend(features("<mechanisms xmlns='urn:ietf:params:xml:ns:xmpp-sasl'><mechanism>" + mech() + "</mechanism></mechanisms>"));
+        if (n == "sasl:SCRAM-SHA-1:after-challenge")
+            c.serverSend("<challenge xmlns='urn:ietf:params:xml:ns:xmpp-sasl'>" + scramServerFirst(c.lastSent(QStringLiteral("<auth"))) + "</challenge>");
+        if (n == "sasl:DIGEST-MD5:after-challenge")
+            c.serverSend("<challenge xmlns='urn:ietf:params:xml:ns:xmpp-sasl'>" + QByteArray("realm=\"montague.example\",nonce=\"OA6MG9tEQGm2hh\",qop=\"auth\",charset=utf-8,algorithm=md5-sess").toBase64() + "</challenge>");
+    } else if (n.rfind("sasl2:", 0) == 0) {
+        c.serverSend(features("<authentication xmlns='urn:xmpp:sasl:2'><mechanism>" + mech() + "</mechanism><inline><bind xmlns='urn:xmpp:bind:0'><inline><feature var='urn:xmpp:carbons:2'/>"
+                              "<feature var='urn:xmpp:sm:3'/></inline></bind><sm xmlns='urn:xmpp:sm:3'/></inline></authentication>"));
+        if (n == "sasl2:SCRAM-SHA-1:after-challenge")
+            c.serverSend("<challenge xmlns='urn:xmpp:sasl:2'>" + scramServerFirst(c.lastSent(QStringLiteral("<authenticate"))) + "</challenge>");
+    } else if (n == "bind") {
+        c.setAuthenticated(true);
+        c.serverSend(features("<bind xmlns='urn:ietf:params:xml:ns:xmpp-bind'/><session xmlns='urn:ietf:params:xml:ns:xmpp-session'><optional/></session><sm xmlns='urn:xmpp:sm:3'/>"));
+    } else if (n == "sm-enable" || n == "sm-resume") {
+        c.setAuthenticated(true);
+        c.serverSend(features("<sm xmlns='urn:xmpp:sm:3'/>"));
+        if (n == "sm-resume") {
+            c.serverSend("<enabled xmlns='urn:xmpp:sm:3' id='sm-id-1' resume='true'/>");
+            // the connection drops; the client reconnects and asks to resume
+            c.peer->abort();
+            c.pump(6);
+            c.peer.reset();
+            if (!c.connectOnly(server)) return false;
+            c.setAuthenticated(true);
+            c.serverSend(features("<sm xmlns='urn:xmpp:sm:3'/>"));
+            if (c.lastSent(QStringLiteral("<resume")).isEmpty()) return false;
+        }
+    } else if (n.rfind("legacy-auth", 0) == 0) {
+        c.serverSend(features("<auth xmlns='http://jabber.org/features/iq-auth'/>"));
+        if (n == "legacy-auth:login")
+            c.serverSend("<iq type='result' id='" + c.lastSentIqId().toUtf8() + "'><query xmlns='jabber:iq:auth'><username/><password/><digest/><resource/></query></iq>");
+    }
+    if (n.find(":after-challenge") != std::string::npos && c.lastSent(QStringLiteral("<response")).isEmpty()) return false;   // challenge was not answered
+    if (n == "legacy-auth:login" && !c.lastSent(QStringLiteral("<iq")).contains(QStringLiteral("<password>")) && !c.lastSent(QStringLiteral("<iq")).contains(QStringLiteral("<digest>"))) return false;
+    return c.listenerIndex() == st.listener;
+}
+
+// The negotiation protocols' own elements in their variants. "@ID@" is replaced by the id of the IQ the client sent last.
+static std::vector<Doc> negotiationDocs()
+{
+    std::vector<Doc> out;
+    auto add = [&](const std::string &id, const std::string &xml) { out.push_back({ "nego:" + id, QByteArray::fromStdString(xml) }); };
+    const char *SASL = "urn:ietf:params:xml:ns:xmpp-sasl", *SASL2 = "urn:xmpp:sasl:2", *TLS = "urn:ietf:params:xml:ns:xmpp-tls", *SM = "urn:xmpp:sm:3";
+    const char *conds[] = { "aborted", "account-disabled", "credentials-expired", "encryption-required", "incorrect-encoding", "invalid-authzid", "invalid-mechanism",
+                            "malformed-request", "mechanism-too-weak", "not-authorized", "temporary-auth-failure", "account-locked", "" };
+    const char *texts[] = { "", "<text>Nope</text>", "<text xml:lang='en'>Nope</text>", "<text/>" };
+    const char *payloads[] = { "", "=", "dj1ybUY5cHFWOFM3c3VBb1pXamE0ZEpSa0ZzS1E9", "not base64 !!", "cj14LHM9eCxpPTE=", "ZT1vdGhlci1lcnJvcg==", "AA==" };
+    for (const char *ns : { SASL, SASL2, "", "urn:verif:wrong" }) {
+        std::string N = ns, tag = N == SASL ? "sasl" : N == SASL2 ? "sasl2" : N.empty() ? "nons" : "wrongns";
+        for (const char *c : conds)
+            for (size_t ti = 0; ti < sizeof texts / sizeof texts[0]; ti++) {
+                const char *t = texts[ti];
+                // in SASL2 the condition children live in the SASL 1 namespace
+                std::string cond = *c ? (N == SASL2 ? std::string("<") + c + " xmlns='" + SASL + "'/>" : std::string("<") + c + "/>") : "";
+                std::string text = t;
+                add(tag + ":failure:" + (*c ? c : "no-condition") + (*t ? ":text" + std::to_string(ti) : ""), "<failure xmlns='" + N + "'>" + cond + text + "</failure>");
+            }
+        for (const char *pl : payloads) {
+            add(tag + ":success", "<success xmlns='" + N + "'>" + pl + "</success>");
+            add(tag + ":challenge", "<challenge xmlns='" + N + "'>" + pl + "</challenge>");
+            add(tag + ":response", "<response xmlns='" + N + "'>" + pl + "</response>");
+        }
+        add(tag + ":abort", "<abort xmlns='" + N + "'/>");
+        add(tag + ":auth", "<auth xmlns='" + N + "' mechanism='PLAIN'>AGEAYg==</auth>");
+    }
+    for (const char *pl : payloads) {
+        add("sasl2:success:additional-data", std::string("<success xmlns='") + SASL2 + "'><additional-data>" + pl + "</additional-data><authorization-identifier>romeo@montague.example/orchard</authorization-identifier></success>");
+        add("sasl2:continue", std::string("<continue xmlns='") + SASL2 + "'><additional-data>" + pl + "</additional-data><tasks><task>TOTP-EXAMPLE</task></tasks><text>2FA</text></continue>");
+    }
+    add("sasl2:success:no-jid", std::string("<success xmlns='") + SASL2 + "'/>");
+    add("sasl2:success:bad-jid", std::string("<success xmlns='") + SASL2 + "'><authorization-identifier>@/</authorization-identifier></success>");
+    add("sasl2:success:bound", std::string("<success xmlns='") + SASL2 + "'><authorization-identifier>romeo@montague.example/x</authorization-identifier><bound xmlns='urn:xmpp:bind:0'>"
+        "<enabled xmlns='urn:xmpp:sm:3' id='i' resume='1' max='x'/><failed xmlns='urn:xmpp:sm:3' h='-1'/></bound><token xmlns='urn:xmpp:fast:0' expiry='never' token=''/></success>");
+    add("sasl2:success:bound-resumed", std::string("<success xmlns='") + SASL2 + "'><authorization-identifier>romeo@montague.example/x</authorization-identifier><bound xmlns='urn:xmpp:bind:0'>"
+        "<resumed xmlns='urn:xmpp:sm:3' h='99999999999' previd='p'/></bound></success>");
+    add("sasl2:continue:empty", std::string("<continue xmlns='") + SASL2 + "'/>");
+    // STARTTLS
+    add("tls:proceed", std::string("<proceed xmlns='") + TLS + "'/>");
+    add("tls:proceed:children", std::string("<proceed xmlns='") + TLS + "'><x/>text</proceed>");
+    add("tls:failure", std::string("<failure xmlns='") + TLS + "'/>");
+    add("tls:starttls", std::string("<starttls xmlns='") + TLS + "'><required/></starttls>");
+    add("tls:proceed:wrongns", "<proceed xmlns='urn:verif:wrong'/>");
+    // stream management
+    for (const char *attrs : { "", " id='x'", " id='x' resume='true'", " id='' resume='maybe' max='-1' location='[::1]:x'", " resume='1'", " id='x' resume='true' max='99999999999999999999'" })
+        add("sm:enabled", std::string("<enabled xmlns='") + SM + "'" + attrs + "/>");
+    for (const char *attrs : { "", " h='0'", " h='-1'", " h='4294967296'", " h='abc'", " h='5' previd='sm-id-1'", " previd=''" }) {
+        add("sm:resumed", std::string("<resumed xmlns='") + SM + "'" + attrs + "/>");
+        add("sm:failed", std::string("<failed xmlns='") + SM + "'" + attrs + "><item-not-found xmlns='urn:ietf:params:xml:ns:xmpp-stanzas'/></failed>");
+        add("sm:failed:bare", std::string("<failed xmlns='") + SM + "'" + attrs + "/>");
+        add("sm:a", std::string("<a xmlns='") + SM + "'" + attrs + "/>");
+    }
+    add("sm:r", std::string("<r xmlns='") + SM + "'/>");
+    add("sm:enable", std::string("<enable xmlns='") + SM + "' resume='true'/>");
+    add("sm:failed:unknown-condition", std::string("<failed xmlns='") + SM + "'><verif-unknown xmlns='urn:ietf:params:xml:ns:xmpp-stanzas'/><text xmlns='urn:ietf:params:xml:ns:xmpp-stanzas'>t</text></failed>");
+    // resource binding and legacy authentication: replies to the pending IQ (and to nobody)
+    for (const char *id : { "@ID@", "someone-elses-id", "" }) {
+        std::string I = id;
+        add("bind:result", "<iq xmlns='jabber:client' type='result' id='" + I + "'><bind xmlns='urn:ietf:params:xml:ns:xmpp-bind'><jid>romeo@montague.example/orchard</jid></bind></iq>");
+        add("bind:result:no-jid", "<iq xmlns='jabber:client' type='result' id='" + I + "'><bind xmlns='urn:ietf:params:xml:ns:xmpp-bind'/></iq>");
+        add("bind:result:bad-jid", "<iq xmlns='jabber:client' type='result' id='" + I + "'><bind xmlns='urn:ietf:params:xml:ns:xmpp-bind'><jid>@/</jid><jid/></bind></iq>");
+        add("bind:result:empty", "<iq xmlns='jabber:client' type='result' id='" + I + "'/>");
+        add("bind:error", "<iq xmlns='jabber:client' type='error' id='" + I + "'><error type='cancel'><conflict xmlns='urn:ietf:params:xml:ns:xmpp-stanzas'/></error></iq>");
+        add("bind:error:unknown", "<iq xmlns='jabber:client' type='error' id='" + I + "'><error type='verif'><verif-unknown xmlns='urn:ietf:params:xml:ns:xmpp-stanzas'/></error></iq>");
+        add("bind:error:bare", "<iq xmlns='jabber:client' type='error' id='" + I + "'/>");
+        add("bind:get", "<iq xmlns='jabber:client' type='get' id='" + I + "'><bind xmlns='urn:ietf:params:xml:ns:xmpp-bind'/></iq>");
+        add("legacy:options", "<iq xmlns='jabber:client' type='result' id='" + I + "'><query xmlns='jabber:iq:auth'><username/><password/><digest/><resource/></query></iq>");
+        add("legacy:options:none", "<iq xmlns='jabber:client' type='result' id='" + I + "'><query xmlns='jabber:iq:auth'/></iq>");
+        add("legacy:options:digest-only", "<iq xmlns='jabber:client' type='result' id='" + I + "'><query xmlns='jabber:iq:auth'><digest/></query></iq>");
+        add("legacy:error", "<iq xmlns='jabber:client' type='error' id='" + I + "'><query xmlns='jabber:iq:auth'/><error code='401' type='auth'><not-authorized xmlns='urn:ietf:params:xml:ns:xmpp-stanzas'/></error></iq>");
+    }
+    // stream level
+    add("stream:features:empty", "<stream:features xmlns:stream='http://etherx.jabber.org/streams'/>");
+    add("stream:features:everything", "<stream:features xmlns:stream='http://etherx.jabber.org/streams'><starttls xmlns='urn:ietf:params:xml:ns:xmpp-tls'/><mechanisms xmlns='urn:ietf:params:xml:ns:xmpp-sasl'>"
+        "<mechanism>PLAIN</mechanism><mechanism/></mechanisms><authentication xmlns='urn:xmpp:sasl:2'><mechanism>PLAIN</mechanism></authentication><bind xmlns='urn:ietf:params:xml:ns:xmpp-bind'/>"
+        "<sm xmlns='urn:xmpp:sm:3'/><auth xmlns='http://jabber.org/features/iq-auth'/></stream:features>");
+    add("stream:error:conflict", "<stream:error xmlns:stream='http://etherx.jabber.org/streams'><conflict xmlns='urn:ietf:params:xml:ns:xmpp-streams'/></stream:error>");
+    add("stream:error:unknown", "<stream:error xmlns:stream='http://etherx.jabber.org/streams'><verif-unknown xmlns='urn:ietf:params:xml:ns:xmpp-streams'/></stream:error>");
+    add("stream:error:empty", "<stream:error xmlns:stream='http://etherx.jabber.org/streams'/>");
+    add("stream:error:see-other-host", "<stream:error xmlns:stream='http://etherx.jabber.org/streams'><see-other-host xmlns='urn:ietf:params:xml:ns:xmpp-streams'>[::1]:99999</see-other-host></stream:error>");
+    return out;
+}
+
+struct Work { int doc; int mut; int kind; int mode; int wrap = 0; };   // mode 0 direct, 1 socket, 2 long-lived (doc = first index, mut = count), 3 negotiation state (wrap = state index; kind < -1: direct)
 
 // Corpus documents that are payloads (data forms, jingle contents, pubsub items, ...) are also delivered inside a stanza, the way a
 // peer would send them: wrap 1 message, 2 presence, 3 iq-get, 4 iq-set, 5 iq-result, 6 iq-error
@@ -286,8 +528,8 @@ static void runItem(const Work &w, int itemIdx, Status *st, QTcpServer &server, 
             int from = c.sent.size();
             long long t0 = cpuMicros();
             arm(g_cfg.cpuBudget);
-            if (c.online()) c.feedDirect(d.documentElement());
-            else { disarm(); if (!c.goOnline(server)) break; arm(g_cfg.cpuBudget); c.feedDirect(d.documentElement()); st->counters[C_DROPPED]++; }
+            if (!c.online()) { disarm(); if (!c.goOnline(server)) break; arm(g_cfg.cpuBudget); st->counters[C_DROPPED]++; }
+            if (!guarded("session", g_docs[i].id, "", g_docs[i].xml, st, [&] { c.feedDirect(d.documentElement()); })) break;
             disarm();
             long long ms = (cpuMicros() - t0) / 1000;
             if (ms > st->counters[C_MAX_CALL_MS]) st->counters[C_MAX_CALL_MS] = ms;
@@ -296,6 +538,54 @@ static void runItem(const Work &w, int itemIdx, Status *st, QTcpServer &server, 
         }
         st->phase = PH_PREP;
         return;
+    }
+    if (w.mode == 3) {
+        const NegState &ns = negStates()[w.wrap];
+        const Doc &d = g_docs[w.doc];
+        QByteArray in = d.xml;
+        std::string mutDesc;
+        if (w.mut >= 0) {
+            vh::Rng rng(g_cfg.seed * 1000003ull + uint64_t(w.doc) * 7919ull + uint64_t(w.mut + 1) * 104729ull + uint64_t(w.wrap) * 31ull + 5);
+            Node n = g_nodes[w.doc];
+            MutCtx ctx { rng, &g_nodes, 32, 200, 1 << 14 };
+            int kind = w.kind < 0 ? 0 : w.kind;
+            for (int tries = 0; tries < M_KINDS && mutDesc.empty(); tries++, kind = (kind + 1) % M_KINDS) {
+                if (kind == M_ATTR_LONG || kind == M_TEXT_LONG || kind == M_WIDE || kind == M_DEEP) continue;
+                mutDesc = mutate(n, kind, ctx);
+            }
+            if (mutDesc.empty()) return;
+            in = render(n);
+        }
+        TestClient c;
+        st->phase = PH_PREP;
+        bool reached = false;
+        arm(g_cfg.cpuBudget);
+        if (!guarded(ns.name + ":entering", d.id, mutDesc, in, st, [&] { reached = enterState(c, server, ns); })) { disarm(); return; }
+        disarm();
+        if (!reached) { st->counters[C_NEGO_STATE_NOT_REACHED]++; return; }
+        in.replace("@ID@", c.lastSentIqId().toUtf8());
+        printf("D %s\t%s\t%s\n", d.id.c_str(), (std::string("state=") + ns.name + (mutDesc.empty() ? "" : ";" + mutDesc)).c_str(), escLine(in, 4000).c_str());
+        fflush(stdout);
+        QDomDocument doc;
+        QByteArray wrappedIn = "<stream:stream xmlns='jabber:client' xmlns:stream='http://etherx.jabber.org/streams'>" + in + "</stream:stream>";
+        if (!doc.setContent(wrappedIn, true) || doc.documentElement().firstChildElement().isNull()) { st->counters[C_INPUT_NOT_WF]++; return; }
+        int from = c.sent.size();
+        st->counters[C_ITEMS]++;
+        st->counters[C_NEGO_FED]++; st->counters[C_NEGO_STATE0 + w.wrap]++;
+        long long t0 = cpuMicros();
+        arm(g_cfg.cpuBudget);
+        bool direct = (w.doc + w.wrap + (w.mut < 0 ? 0 : w.mut)) % 3 == 0;
+        st->phase = direct ? PH_FEED : PH_EVENTS;
+        guarded(ns.name, d.id, mutDesc, in, st, [&] { if (direct) c.feedDirect(doc.documentElement().firstChildElement()); else c.feedSocket(in); });
+        disarm();
+        long long ms = (cpuMicros() - t0) / 1000;
+        if (ms > st->counters[C_MAX_CALL_MS]) st->counters[C_MAX_CALL_MS] = ms;
+        if (c.listenerIndex() != ns.listener) st->counters[C_NEGO_FINISHED]++;   // the element ended / advanced the negotiation step
+        st->counters[C_ERRORS_SIGNALLED] += c.nErr;
+        account(c, st, d.id + "(state " + ns.name + ")", mutDesc, in, from);
+        st->phase = PH_EVENTS;
+        arm(g_cfg.cpuBudget);
+        return;   // tear-down of a client in mid-negotiation is part of the experiment
     }
     const Doc &d = g_docs[w.doc];
     QByteArray in;
@@ -331,11 +621,11 @@ static void runItem(const Work &w, int itemIdx, Status *st, QTcpServer &server, 
     arm(budget);
     if (w.mode == 0) {
         st->phase = PH_FEED;
-        c.feedDirect(doc.documentElement());
+        guarded("session", d.id, mutDesc, in, st, [&] { c.feedDirect(doc.documentElement()); });
         st->counters[C_FED_DIRECT]++;
     } else {
         st->phase = PH_EVENTS;
-        c.feedSocket(in);
+        guarded("session", d.id, mutDesc, in, st, [&] { c.feedSocket(in); });
         st->counters[C_FED_SOCKET]++;
     }
     disarm();
@@ -367,6 +657,8 @@ int main(int argc, char **argv)
         else if (s == "--docs") g_cfg.docs = next();
         else if (s == "--per-doc") g_cfg.perDoc = atoi(next().c_str());
         else if (s == "--no-mutations") g_cfg.mutations = false;
+        else if (s == "--no-negotiation") g_cfg.nego = false;
+        else if (s == "--state") g_cfg.state = next();
         else if (s == "--cpu-budget") g_cfg.cpuBudget = atoi(next().c_str());
     }
     g_cfg.workers = std::max(1, std::min(32, g_cfg.workers));
@@ -421,6 +713,29 @@ int main(int argc, char **argv)
         for (int k : heavy)
             for (int q = 0; q < quota; q++) work.push_back({ int(g_nRegress + hr.below(uint32_t(g_docs.size() - g_nRegress))), 1000 + q, k, q % 2 });
     }
+    // ---- negotiation-state feeding: every listener state x (the negotiation protocols' own elements in all variants, seeded mutants of
+    // them, a sample of the corpus)
+    size_t negoBegin = g_docs.size();
+    for (auto &d : negotiationDocs()) {
+        if (!g_cfg.docs.empty() && d.id.find(g_cfg.docs) == std::string::npos) continue;
+        QDomDocument doc;
+        if (!doc.setContent(d.xml, true) || doc.documentElement().isNull()) { rejected++; fprintf(stderr, "negotiation document %s is not well-formed\n", d.id.c_str()); continue; }
+        g_docs.push_back(d);
+        g_nodes.push_back(nodeFromDom(doc.documentElement()));
+    }
+    size_t negoEnd = g_docs.size();
+    long negoItems = 0;
+    if (g_cfg.nego) {
+        vh::Rng nr(g_cfg.seed * 424243ull + 11);
+        for (size_t stI = 0; stI < negStates().size(); stI++) {
+            if (!g_cfg.state.empty() && negStates()[stI].name.find(g_cfg.state) == std::string::npos) continue;
+            for (size_t i = negoBegin; i < negoEnd; i++) { work.push_back({ int(i), -1, -1, 3, int(stI) }); negoItems++; }
+            int mutants = !g_cfg.mutations ? 0 : quick ? 40 : 400;
+            for (int m = 0; m < mutants && negoEnd > negoBegin; m++) { work.push_back({ int(negoBegin + nr.below(uint32_t(negoEnd - negoBegin))), m, int(nr.below(M_KINDS)), 3, int(stI) }); negoItems++; }
+            size_t step = quick ? 12 : 3;
+            for (size_t i = g_nRegress + (g_cfg.seed + stI) % step; i < negoBegin; i += step) { work.push_back({ int(i), -1, -1, 3, int(stI) }); negoItems++; }
+        }
+    }
     const int batchSize = 40;
     int nBatches = int((work.size() + batchSize - 1) / batchSize);
 
@@ -474,6 +789,7 @@ int main(int argc, char **argv)
                 if (w->mode != 2 && w->mut >= 0) kind = mutName(w->kind);
             }
             bool inClient = r.phase == PH_FEED || r.phase == PH_EVENTS;
+            if (w && w->mode == 3) what = negStates()[w->wrap].name + ":" + what;
             std::string key = inClient ? "C02:client-crash:" + what : "C02:harness:" + std::string(phaseName(r.phase)) + ":" + what;
             printf("I client %s work=%zu mode=%s kind=%s phase=%s\n", docId.c_str(), k, w ? (w->mode == 0 ? "direct" : w->mode == 1 ? "socket" : "long-lived") : "?", kind.c_str(), phaseName(r.phase));
             std::string tail = r.errText;
@@ -486,7 +802,7 @@ int main(int argc, char **argv)
                 printf("O FAIL %s\tdoc=%s work=%zu seed=%llu mode=%s kind=%s phase=%s exit=%d signal=%d %s | %s | base-document=%s | exact-input(id,mutation,xml)=%s | child-output=%s\n",
                        key.c_str(), docId.c_str(), k, (unsigned long long)g_cfg.seed, w ? (w->mode == 0 ? "direct" : w->mode == 1 ? "socket" : "long-lived") : "?", kind.c_str(), phaseName(r.phase),
                        r.exitCode, r.signal, escLine(QByteArray::fromStdString(first), 300).c_str(), escLine(QByteArray::fromStdString(summary), 300).c_str(), xml.c_str(),
-                       (w && w->mode != 2 && w->mut >= 0) ? lastD.constData() : "", r.outPath.c_str());
+                       (w && (w->mode == 3 || (w->mode != 2 && w->mut >= 0))) ? lastD.constData() : "", r.outPath.c_str());
             else suppressed++;
         }
         fflush(stdout);
@@ -505,6 +821,14 @@ int main(int argc, char **argv)
     vh::stat("fed_through_socket", T[C_FED_SOCKET]);
     vh::stat("fed_long_lived_client", T[C_LONGLIVED_FED]);
     vh::stat("fed_wrapped_in_a_stanza", T[C_WRAPPED]);
+    vh::stat("negotiation_states", long(negStates().size()));
+    vh::stat("negotiation_protocol_documents", long(negoEnd - negoBegin));
+    vh::stat("negotiation_work_items", negoItems);
+    vh::stat("fed_in_negotiation_state", T[C_NEGO_FED]);
+    vh::stat("negotiation_state_not_reached", T[C_NEGO_STATE_NOT_REACHED]);
+    vh::stat("negotiation_step_ended_by_element", T[C_NEGO_FINISHED]);
+    vh::stat("exceptions_escaped", T[C_EXCEPTIONS]);
+    for (size_t i = 0; i < negStates().size(); i++) vh::stat("fed_in_state:" + negStates()[i].name, T[C_NEGO_STATE0 + i]);
     vh::stat("packets_sent_in_reaction", T[C_SENT]);
     vh::stat("packets_sent_bytes", T[C_SENT_BYTES]);
     vh::stat("sent_iq_errors", T[C_SENT_IQ_ERRORS]);
